@@ -23,7 +23,7 @@ from vlib import ROOT, log
 class Engine:
     def __init__(self, name, c_srcs, ml_srcs, gen, wraps=(), n_quick=2000, n_thorough=50000,
                  variant="asan", ml_packages=(), sep=";", extra_cflags=(), timeout=1500,
-                 search_factor=2, libs=("-lpthread",), env=None):
+                 search_factor=2, libs=("-lpthread",), env=None, per_case=False):
         self.name = name
         self.c_srcs = c_srcs
         self.ml_srcs = ml_srcs
@@ -39,6 +39,7 @@ class Engine:
         self.search_factor = search_factor
         self.libs = libs
         self.env = env
+        self.per_case = per_case
 
 
 class Property:
@@ -76,7 +77,7 @@ def run_engine(prop, eng, cases, workdir, tag):
     implout = os.path.join(workdir, "%s-%s.impl" % (eng.name, tag))
     verd = os.path.join(workdir, "%s-%s.verdict" % (eng.name, tag))
     impl_bin = vlib.build_harness(eng.name, eng.c_srcs, eng.variant, eng.wraps, eng.extra_cflags, eng.libs)
-    monitors = vlib.run_impl(impl_bin, casefile, implout, len(cases), timeout=eng.timeout, env_extra=eng.env)
+    monitors = vlib.run_impl(impl_bin, casefile, implout, len(cases), timeout=eng.timeout, env_extra=eng.env, per_case=eng.per_case)
     ml_bin = vlib.build_ml(eng.name, eng.ml_srcs, eng.ml_packages)
     text = vlib.run_model(ml_bin, casefile, implout, verd, timeout=eng.timeout)
     classes, diffs, fails, stats = vlib.parse_verdicts(text)
